@@ -92,6 +92,7 @@ func (w *simWriter) op(kind string, p []byte) (int, error) {
 		o.n, o.err, o.done = r.n, r.err, true
 		if r.err != nil {
 			w.failed = true
+			w.ownError()
 		}
 		s.mu.Unlock()
 		return r.n, r.err
@@ -106,6 +107,7 @@ func (w *simWriter) op(kind string, p []byte) (int, error) {
 			o.n = len(p) / 2
 		}
 		w.failed = true
+		w.ownError()
 		s.faults["write_err_inline"]++
 	} else if kind == "W" {
 		o.n = len(p)
@@ -114,6 +116,19 @@ func (w *simWriter) op(kind string, p []byte) (int, error) {
 	s.mu.Unlock()
 	return n, err
 }
+
+// ownError: the transport has just failed an operation of this input stream
+// (every writer kind that can be failed reports the error to its caller), so
+// the stream has to end by itself now.  Called with s.mu held.
+func (w *simWriter) ownError() {
+	if h := w.att.in; h != nil && h.attachedR && !h.proxyEnded && !w.after() {
+		if _, ok := w.s.mustEnd[h]; !ok {
+			w.s.mustEnd[h] = w.s.step
+		}
+	}
+}
+
+func (w *simWriter) after() bool { return w.closed }
 
 // complete finishes the parked operation.
 func (w *simWriter) complete(errKind string) {
